@@ -139,7 +139,42 @@ def valset(e, env, depth=0):
             return None
         f = {"Add": lambda x, y: x + y, "Sub": lambda x, y: x - y, "Mul": lambda x, y: x * y,
              "BitAnd": lambda x, y: x & y, "BitOr": lambda x, y: x | y}.get(op)
+        if op == "Div" and len(b) == 1 and list(b)[0] > 0 and all(x >= 0 for x in a):
+            m = list(b)[0]
+            return {x // m for x in a}
+        if op == "Shr" and len(b) == 1 and all(x >= 0 for x in a):
+            return {x >> list(b)[0] for x in a}
         if f is None:
             return None
         return {f(x, y) for x in a for y in b}
     return None
+
+
+def guard_env(f, bi, ex, e, limit=4096):
+    """value sets for the opaque variables of expression e at block bi, from the linear guards that dominate the site:
+    a variable with a constant upper bound (and a lower bound, or an unsigned type) ranges over an interval"""
+    from mirutil import known_le0
+    from expr import walk
+    names = {l: n for l, n in f.local_names().items()}
+    tys = {n: f.locals[l]["ty"] for l, n in names.items()}
+    out = {}
+    known = known_le0(f, bi, ex)
+    known = [k[1] if isinstance(k, tuple) else k for k in known]
+    for x in walk(e):
+        if not (isinstance(x, tuple) and x[0] in ("var", "param") and isinstance(x[1], str)) or x[1] in out:
+            continue
+        key = repr(x)
+        lo = 0 if tys.get(x[1], "").startswith("u") else None
+        hi = None
+        for form in known:
+            nz = {k: v for k, v in form.items() if k != "1" and v}
+            if set(nz) != {key}:
+                continue
+            c = form.get("1", 0)
+            if nz[key] == 1:            # v + c <= 0
+                hi = -c if hi is None else min(hi, -c)
+            elif nz[key] == -1:         # -v + c <= 0  ->  v >= c
+                lo = c if lo is None else max(lo, c)
+        if lo is not None and hi is not None and 0 <= hi - lo <= limit:
+            out[x[1]] = set(range(lo, hi + 1))
+    return out
